@@ -16,7 +16,7 @@ import (
 )
 
 func gen(t *rapid.T) sw.Scenario {
-	sc := sw.Scenario{MempoolTTL: uint64(rapid.IntRange(1, 2).Draw(t, "ttl")), InitialHeight: 1}
+	sc := sw.Scenario{MempoolTTL: uint64(rapid.IntRange(1, 2).Draw(t, "ttl")), InitialHeight: rapid.SampledFrom([]uint64{1, 1, 1, 2, 5, 1 << 20}).Draw(t, "initial")}
 	n := rapid.IntRange(3, world.Scale(25, 45)).Draw(t, "nops")
 	for i := 0; i < n; i++ {
 		switch k := rapid.IntRange(0, 19).Draw(t, "op"); {
